@@ -806,6 +806,57 @@ fn knight_promotion_net(t: &mut Tape) -> Pos1 {
     p
 }
 
+/// a pawn on its seventh rank pinned on a diagonal by a piece on the last rank which it can
+/// capture, promoting (the capture stays on the pin line), with the enemy king near by
+fn pinned_promotion_net(t: &mut Tape) -> Pos1 {
+    let mut p = Pos1::empty();
+    p.stm = WHITE;
+    let f = t.range(0, 7) as i8;
+    let dir: i8 = if f == 0 { 1 } else if f == 7 { -1 } else if t.choose(2) == 0 { 1 } else { -1 };
+    let pawn = sq(f as u8, 6);
+    let pinner = sq((f + dir) as u8, 7);
+    p.sq[pawn as usize] = pc(WHITE, P);
+    p.sq[pinner as usize] = pc(BLACK, *t.pick(&[B, Q, B]));
+    // own king further down the same diagonal
+    let mut cands: Vec<u8> = Vec::new();
+    let mut kf = f - dir;
+    let mut kr = 5i8;
+    while (0..8).contains(&kf) && kr >= 0 {
+        cands.push(sq(kf as u8, kr as u8));
+        kf -= dir;
+        kr -= 1;
+    }
+    if cands.is_empty() {
+        return p;
+    }
+    let wk = *t.pick(&cands);
+    p.sq[wk as usize] = pc(WHITE, K);
+    // the enemy king on the last two ranks, hemmed in by a few of its own men
+    for _ in 0..8 {
+        let s = sq(t.choose(8) as u8, t.range(6, 7) as u8);
+        if p.sq[s as usize] == EMPTY {
+            p.sq[s as usize] = pc(BLACK, K);
+            let n = t.range(0, 3);
+            for _ in 0..n {
+                let q = sq((file_of(s) as i8 + t.range(0, 2) as i8 - 1).clamp(0, 7) as u8, (rank_of(s) as i8 + t.range(0, 2) as i8 - 1).clamp(0, 7) as u8);
+                let k = *t.pick(&[P, N, B, R]);
+                if p.sq[q as usize] == EMPTY && !(k == P && (rank_of(q) == 0 || rank_of(q) == 7)) {
+                    p.sq[q as usize] = pc(BLACK, k);
+                }
+            }
+            break;
+        }
+    }
+    let n = t.range(0, 3);
+    for _ in 0..n {
+        let k = *t.pick(&[R, Q, B, N]);
+        if let Some(s) = rand_empty(t, &p, 0, 7) {
+            place(&mut p, s, WHITE, k);
+        }
+    }
+    p
+}
+
 /// the enemy pawn has just double-stepped next to one of our pawns, with the enemy king and
 /// a few of our pieces close by (mates by an en-passant capture, among others)
 fn ep_net(t: &mut Tape) -> Pos1 {
@@ -924,8 +975,43 @@ fn bare_capture_mate(t: &mut Tape) -> Option<Pos1> {
 }
 
 /// G10: search a mixture of generators for a position with a mate in one of a drawn kind
+/// `s` holds a man of the side to move that stands on a rank, file or diagonal through its
+/// own king, with exactly one other man (of either colour) and then an enemy slider of the
+/// right kind further along that line
+fn looks_pinned(p: &Pos1, s: u8) -> bool {
+    let Some(k) = p.king_sq(p.stm) else { return false };
+    let (df, dr) = (file_of(s) as i8 - file_of(k) as i8, rank_of(s) as i8 - rank_of(k) as i8);
+    if !(df == 0 || dr == 0 || df.abs() == dr.abs()) || (df == 0 && dr == 0) {
+        return false;
+    }
+    let (sf, sr) = (df.signum(), dr.signum());
+    let diagonal = sf != 0 && sr != 0;
+    let (mut f, mut r) = (file_of(k) as i8 + sf, rank_of(k) as i8 + sr);
+    let mut seen_s = false;
+    let mut others = 0;
+    while (0..8).contains(&f) && (0..8).contains(&r) {
+        let q = sq(f as u8, r as u8);
+        let x = p.sq[q as usize];
+        if q == s {
+            seen_s = true;
+        } else if x != EMPTY {
+            let enemy_slider = color_of(x) != p.stm && (kind_of(x) == Q || kind_of(x) == if diagonal { B } else { R });
+            if enemy_slider && seen_s && others == 1 {
+                return true;
+            }
+            others += 1;
+            if others > 1 {
+                return false;
+            }
+        }
+        f += sf;
+        r += sr;
+    }
+    false
+}
+
 fn mate_hunt(t: &mut Tape) -> Pos1 {
-    let want = t.choose(13);
+    let want = t.choose(15);
     let mut fallback: Option<Pos1> = None;
     if want == 9 {
         if let Some(p) = bare_capture_mate(t) {
@@ -933,11 +1019,13 @@ fn mate_hunt(t: &mut Tape) -> Pos1 {
         }
     }
     let tries = if want == 5 || want == 8 || want == 2 || want >= 10 { 1500 } else { 250 };
+    let tries = if want == 13 { 4000 } else { tries };
     for _ in 0..tries {
-        let which = if want == 5 || want == 8 { 6 } else if want == 2 { 7 } else if want == 12 { 9 } else if want >= 10 { 8 } else { t.choose(6) };
+        let which = if want == 5 || want == 8 { 6 } else if want == 2 { 7 } else if want == 14 { 10 } else if want == 13 { *t.pick(&[8u32, 6, 2, 3]) } else if want == 12 { 9 } else if want >= 10 { 8 } else { t.choose(6) };
         let mut p = match which {
             8 => battery_net(t),
             9 => knight_promotion_net(t),
+            10 => pinned_promotion_net(t),
             6 => in_check_net(t),
             7 => ep_net(t),
             0 | 1 => pawn_storm(t),
@@ -991,6 +1079,17 @@ fn mate_hunt(t: &mut Tape) -> Pos1 {
             }),
             // the knight promotion is the only way to mate
             12 => mates.iter().all(|&m| p.kind(m) == MoveKind::PromoN),
+            // the only mating piece stands on a line between its own king and an enemy slider
+            // with exactly one more man between king and slider (it looks pinned to a scan
+            // that counts carelessly, and is not)
+            13 => {
+                let mut from: Vec<u8> = mates.iter().map(|m| m.from).collect();
+                from.sort();
+                from.dedup();
+                from.len() == 1 && looks_pinned(&p, from[0])
+            }
+            // the only mate is a promotion by a pawn that is pinned along its capture
+            14 => mates.iter().all(|&m| matches!(p.kind(m), MoveKind::PromoN | MoveKind::PromoB | MoveKind::PromoR | MoveKind::PromoQ) && file_of(m.from) != file_of(m.to)),
             _ => true,
         };
         if ok {
